@@ -21,7 +21,7 @@ Contents
 5. Genuine defects found on the pinned tree, their repair, the one known finding
 6. Limits, honest non-coverage, tooling limits, known false-alarm surface
 7. Interface (commands, exit codes, evidence, known findings, thorough tier)
-8. Validation of the machinery: five rounds of seeded mutations, controls, six
+8. Validation of the machinery: six rounds of seeded mutations, controls, six
    rounds of behaviour-preserving refactorings; which check catches which change;
    what was missed; false alarms met and how they were removed
 
@@ -111,7 +111,7 @@ on `stream.Merge`, i.e. on the same defect the ownership rule found (F2).
 /verif/evidence/Cnn.json   rewritten by every run
 /verif/reports/            violation reports named in "VIOLATION … replay=<path>" (git-ignored)
 /verif/controls/Cnn/*.diff 121 one-line control edits (tools/gen_controls.py)
-/verif/seeded/*/           280 sub-agent mutations with demonstration tests and meta.json
+/verif/seeded/*/           340 sub-agent mutations with demonstration tests and meta.json
 /verif/refactorings/*/     behaviour-preserving refactorings used as false-alarm tests
 /verif/tools/              baseline.sh, seed_import.sh, seed_confirm.sh, seed_run.sh, ref_run.sh, ref_all.sh, regress.sh,
                            gen_manifest.py, gen_matrix.py, gen_design.py, validate.py
@@ -448,8 +448,29 @@ to `/repo` itself, checked, and undone (`tools/seed_confirm.sh`, recorded in
   it for the right reason. This is why `tools/regress.sh` is re-run after every
   hardening step.
 
+* Round 6 (60, after the round-6 refactoring hardening; prompts listed all
+  fourteen earlier mutations per property): **36 caught at once, 24 missed** (60%).
+  (a) *sibling property*: `C01.split-halves`, `C07.reducer-errors` (from
+  `C08.err-propagate`), `C08.bg-cancellable`, `C09.bg-cancellable`,
+  `C11.no-discarded-recv`, `C12.no-discarded-recv`. (b) *every path*:
+  `C05.pq-map|delete-on-every-removing-path`, `C05.update-stores`,
+  `C11|no-items-dropped-at-exit` (the batch typestate gained "offered to the
+  consumer since the last append"), `C18.range-forwards` (f called exactly once
+  on every path, with the entry it was handed), `C20.reset-rearms`,
+  `C19.namesake-delegation|answer-is-the-delegate's`. (c) *new necessary
+  conditions*: `C02/C15/C20.gen-width` (a generation counter compared for
+  equality is at least 32 bits wide), `C03/C01.read-before-vacate` (an entry
+  moved to another node is read before the source node is touched),
+  `C03|append` (child one slot right of the key when appending by direct
+  stores), `C04.contiguity-siblings` on distance tests (`back - front + 1 < 0`
+  normalised to the cut it makes), `C07.constructor-siblings` (all literals of one
+  wrapper type set the same non-zero flags), `C10.delivered-means-nil`,
+  `C11.batch-age-from-first-item`, `C12|forward-unconditional-on-conversion`,
+  `C14|signal-tests-new-count`, `C17|trigger-send-unconditional`,
+  `C19.callers-skip-advances`, `C19.written-maps-are-made`.
+
 A rule written after seeing a seed says so above; that is the honest reading of
-"caught": all 280 seeds are reported today; in rounds 2-5, 150 of 240 were
+"caught": all 340 seeds are reported today; in rounds 2-6, 186 of 300 were
 reported by the rules that existed when the seed arrived.
 
 ### 8.2 Controls
